@@ -400,4 +400,13 @@ example : (run true [.registerResult 1 7, .registerResult 2 7, .arrive 100 1 5 t
     .arrive 102 1 6 false true 3 1, .resultCbs 102 1 3 1]).resFired
     = [⟨0, 101, 2, 1⟩, ⟨0, 102, 3, 1⟩, ⟨2, 102, 3, 1⟩] := by decide
 
+/-- a list splits into what a predicate keeps and what it drops -/
+theorem length_filter_add {α} (p : α → Bool) : ∀ l : List α,
+    (l.filter p).length + (l.filter fun x => !p x).length = l.length
+  | [] => rfl
+  | x :: xs => by
+    have ih := length_filter_add p xs
+    cases h : p x <;> simp [h] <;> omega
+
+
 end Spine.CB
